@@ -172,3 +172,39 @@ pub fn must_retain(p: &Policy, entries: &[Entry], now_micros: u64) -> BTreeSet<(
     }
     out
 }
+
+/// No resurrection: for every key, what a current read returns after the collection is either what
+/// it returned before or nothing.  (A tombstone may only go together with everything it shadows;
+/// a newer value may only go - under an expiry policy - together with everything older.)
+/// Both slices sorted by key ascending, timestamp descending.  Returns a description of the first
+/// offending key.
+pub fn resurrection(before: &[Entry], after: &[Entry]) -> Option<String> {
+    use std::collections::BTreeMap;
+    let mut nb: BTreeMap<&[u8], &Entry> = BTreeMap::new();
+    for e in before {
+        nb.entry(e.0.as_slice()).or_insert(e);
+    }
+    let mut na: BTreeMap<&[u8], &Entry> = BTreeMap::new();
+    for e in after {
+        na.entry(e.0.as_slice()).or_insert(e);
+    }
+    for (k, a) in na.iter() {
+        if a.2.is_none() {
+            continue; // reads as deleted
+        }
+        match nb.get(k) {
+            Some(b) if b.1 == a.1 => {}
+            Some(b) => {
+                return Some(format!(
+                    "key {}: before the collection the newest entry was {}@{}, afterwards a current read returns the older value@{} (the deciding entry was dropped without everything it shadows)",
+                    vcore::gens::show(k),
+                    if b.2.is_some() { "value" } else { "tombstone" },
+                    b.1,
+                    a.1
+                ));
+            }
+            None => return Some(format!("key {} appears only after the collection", vcore::gens::show(k))),
+        }
+    }
+    None
+}
